@@ -4,6 +4,7 @@ import (
 	"context"
 	"fmt"
 	"math/big"
+	"strings"
 
 	sdkmath "cosmossdk.io/math"
 	"github.com/cosmos/cosmos-sdk/client"
@@ -16,7 +17,9 @@ import (
 	banktypes "github.com/cosmos/cosmos-sdk/x/bank/types"
 	"github.com/ethereum/go-ethereum/common"
 	ethtypes "github.com/ethereum/go-ethereum/core/types"
+	ethcrypto "github.com/ethereum/go-ethereum/crypto"
 
+	"github.com/EscanBE/evermint/v12/ethereum/eip712"
 	evertypes "github.com/EscanBE/evermint/v12/types"
 	evmtypes "github.com/EscanBE/evermint/v12/x/evm/types"
 	evmutils "github.com/EscanBE/evermint/v12/x/evm/utils"
@@ -117,6 +120,9 @@ type CosmosOpts struct {
 	ExtOpts    []*codectypes.Any
 	NonCritExt []*codectypes.Any
 	NoSign     bool
+	// SignKind: "" = SIGN_MODE_DIRECT; "amino" = SIGN_MODE_LEGACY_AMINO_JSON; "eip712-direct" / "eip712-amino" = the
+	// signature is over the repository's EIP-712 rendering of that mode's sign document (what a web3 wallet produces)
+	SignKind string
 	Ctx        *sdk.Context // state to read sequence/account number from (default committed)
 }
 
@@ -207,11 +213,29 @@ func (c *Chain) SignCosmos(a *Acct, txb client.TxBuilder, o *CosmosOpts) error {
 	}
 	priv := a.PrivKey()
 	mode := signing.SignMode_SIGN_MODE_DIRECT
+	if o.SignKind == "amino" || o.SignKind == "eip712-amino" {
+		mode = signing.SignMode_SIGN_MODE_LEGACY_AMINO_JSON
+	}
 	sig := signing.SignatureV2{PubKey: priv.PubKey(), Data: &signing.SingleSignatureData{SignMode: mode}, Sequence: seq}
 	if err := txb.SetSignatures(sig); err != nil {
 		return err
 	}
 	sd := authsigning.SignerData{ChainID: chainID, AccountNumber: accNum, Sequence: seq, PubKey: priv.PubKey(), Address: a.Bech32()}
+	if strings.HasPrefix(o.SignKind, "eip712-") {
+		signBytes, err := authsigning.GetSignBytesAdapter(context.Background(), c.Enc.TxConfig.SignModeHandler(), mode, sd, txb.GetTx())
+		if err != nil {
+			return err
+		}
+		typed, err := eip712.GetEIP712BytesForMsg(signBytes)
+		if err != nil {
+			return err
+		}
+		sg, err := priv.Sign(ethcrypto.Keccak256(typed))
+		if err != nil {
+			return err
+		}
+		return txb.SetSignatures(signing.SignatureV2{PubKey: priv.PubKey(), Data: &signing.SingleSignatureData{SignMode: mode, Signature: sg}, Sequence: seq})
+	}
 	sig2, err := clienttx.SignWithPrivKey(context.Background(), mode, sd, txb, priv, c.Enc.TxConfig, seq)
 	if err != nil {
 		return err
